@@ -118,7 +118,70 @@ def rule_r3(ctx):
         ctx.fail(r, g, "idle retry timer not armed", g.line, "req0_ctx_send does not start the retry timer when retry_active is false")
 
 
+
+def rule_r4(ctx):
+    r = ctx.rule("C12.R4", "T10", "per-context policy is read from the context: where a protocol keeps a default in its socket record "
+                 "and a copy of the same name in its context record (resend time, prefer-new, ...), the socket's copy is read only "
+                 "by the context initialiser and the option functions; every decision about one exchange reads the context's "
+                 "copy", floor=2)
+    prog = ctx.prog
+    setget = set()
+    for g in prog.globals:
+        if "option" in (g.get("type") or "") or "option" in (g.get("name") or ""):
+            for n in walk_global(g):
+                if n.get("k") == "fnref":
+                    setget.add(n["n"])
+    init = set()
+    for slot in ("nni_proto_ctx_ops.ctx_init", "nni_proto_sock_ops.sock_init"):
+        for f in prog.slot_fns(slot):
+            init.add(f.name)
+    n = 0
+    recs = prog.records
+    for sname, srec in recs.items():
+        if not sname.endswith("_sock"):
+            continue
+        cname = sname[:-5] + "_ctx"
+        if cname not in recs:
+            continue
+        cf = {f_["n"] for f_ in recs[cname].get("fields", [])}
+        shared = {f_["n"] for f_ in srec.get("fields", []) if f_["n"] in cf and not f_.get("rec") and
+                  (f_.get("t") or "") in ("nng_duration", "nni_duration", "bool", "_Bool", "int", "size_t")}
+        for fld in sorted(shared):
+            for f in prog.functions:
+                if f.cfg_failed or "/protocol/" not in f.file:
+                    continue
+                for s_ in f.sites():
+                    nd = s_.node
+                    if nd.get("k") == "mem" and nd.get("rec") == sname and nd["f"] == fld:
+                        # a store to the socket's copy is the option setter's business
+                        if any(t.node["lhs"] is nd for t in f.assigns()):
+                            continue
+                        n += 1
+                        if f.name in init or f.name in setget or f.name.endswith(("_sock_init", "_ctx_init")):
+                            r.ob(f, "%s.%s read by an initialiser / option function" % (sname, fld))
+                        else:
+                            ctx.fail(r, f, "%s.%s read outside the initialiser and option functions" % (sname, fld), s_.line,
+                                     "%s decides with the socket's default %s.%s although every context carries its own %s.%s: a "
+                                     "context configured differently from the socket gets the wrong behaviour"
+                                     % (f.name, sname, fld, cname, fld))
+    if n < 2:
+        raise AnalysisBroken("only %d reads of socket-level defaults that contexts shadow" % n)
+
+
+def walk_global(g):
+    import json as _j
+    stack = [g]
+    while stack:
+        x = stack.pop()
+        if isinstance(x, dict):
+            yield x
+            stack.extend(x.values())
+        elif isinstance(x, list):
+            stack.extend(x)
+
+
 def run(ctx):
+    ctx.guard(rule_r4)
     ctx.guard(rule_r1)
     ctx.guard(rule_r2)
     ctx.guard(rule_r3)
